@@ -184,6 +184,24 @@ def models():
             cps = symdata.utf8_decode_forking([engine.SymInt(z3.BitVecVal(x, 8), 8) for x in b])
             same('utf8-decode %r' % b, [x if isinstance(x, int) else z3.simplify(x.e).as_long() for x in cps],
                  [ord(ch) for ch in b.decode('utf-8')])
+    # lenient UTF-8 decoding (errors='replace' / 'ignore') == CPython: the strict-acceptor cases above + random strings
+    for b in cases:
+        for err in ('replace', 'ignore'):
+            same('utf8-lenient-%s %r' % (err, b), symdata.utf8_decode_lenient_items(list(b), err), [ord(ch) for ch in b.decode('utf-8', err)])
+    # Unicode tables built from CPython's database, read back through the ITE encoding: lower() delta, decimal value, isdigit
+    import unicodedata
+    probe = ([0x41, 0x5A, 0x61, 0xB5, 0xC0, 0xDF, 0x130, 0x131, 0x17F, 0x212A, 0x212B, 0x2160, 0x24B6, 0xFF21, 0xFF3A, 0x1E9E, 0x10400, 0x1E900,
+              0x30, 0x39, 0x660, 0x669, 0x6F0, 0x966, 0xFF10, 0xFF19, 0x1D7CE, 0x1D7FF, 0xB2, 0xB9, 0x2460, 0x2070, 0x3007, 0xD800, 0xDFFF, 0x10FFFF, 0]
+             + [rnd.randrange(0x110000) for _ in range(1500)])
+    for cp in probe:
+        x = engine.SymInt(z3.BitVecVal(cp, 21), 21)
+        if cp != 0x130:
+            d = symdata.uni_table('lower-delta', symdata._lower_delta, 21, x)
+            same('lower U+%04X' % cp, (cp + z3.simplify(d.e).as_long()) & 0x1FFFFF, ord(chr(cp).lower()))
+        v = symdata.uni_table('decimal-value', symdata._decimal_value, 4, x)
+        same('decimal U+%04X' % cp, z3.simplify(v.e).as_long(), unicodedata.decimal(chr(cp), 15))
+        g = symdata.uni_table('isdigit', lambda q: 1 if chr(q).isdigit() else 0, 1, x)
+        same('isdigit U+%04X' % cp, z3.simplify(g.e).as_long() == 1, chr(cp).isdigit())
     return n, bad
 
 
